@@ -94,3 +94,153 @@ def np_clip(eng, args, kwargs, node):
 TABLE = {'numpy.fromiter': np_fromiter, 'numpy.array': np_array, 'numpy.searchsorted': np_searchsorted,
          'numpy.argsort': np_argsort, 'numpy.max': np_max, 'numpy.min': np_min, 'numpy.clip': np_clip}
 CONST = {'numpy.int64': 'int64', 'numpy.uint64': 'uint64', 'numpy.int32': 'int32', 'numpy.float64': 'float64'}
+
+
+# ----------------------------------------------------------------------------- small 2-D model (rows of equal length)
+class NpArr2:
+    def __init__(self, rows):
+        self.rows = [list(r) for r in rows]
+
+    def vc_len(self, eng):
+        return len(self.rows)
+
+    def vc_getattr(self, eng, attr, node=None):
+        if attr == 'shape':
+            return (len(self.rows), len(self.rows[0]) if self.rows else 0)
+        if attr == 'sum':
+            def sm(e, a, k):
+                axis = a[0] if a else k.get('axis')
+                if axis != 1:
+                    raise Unsupported('ndarray.sum over axis %r' % (axis,))
+                out = []
+                for r in self.rows:
+                    tot = 0
+                    for x in r:
+                        t = e.truth(x) if pytype_is_bool(x) else None
+                        if t is None:
+                            tot = e.binop(ast.Add(), tot, x)
+                        elif isinstance(t, bool):
+                            tot = e.binop(ast.Add(), tot, int(t))
+                        else:
+                            tot = e.binop(ast.Add(), tot, Sym(z3.If(t, 1, 0), INT))
+                    out.append(tot)
+                return NpArr(out)
+            return BoundMethod('sum', sm)
+        raise Unsupported('ndarray2.%s' % attr)
+
+    def vc_getitem(self, eng, idx, node=None):
+        if isinstance(idx, tuple) and len(idx) == 2 and isinstance(idx[0], NpArr) and isinstance(idx[1], NpArr):
+            return NpArr([eng.getitem(self.rows[eng_int(i)], j, node) for i, j in zip(idx[0].items, idx[1].items)])
+        if isinstance(idx, int):
+            return NpArr(self.rows[idx])
+        raise Unsupported('2-D indexing %r' % (idx,))
+
+    def vc_eq(self, eng, other):
+        if isinstance(other, NpCol):
+            return NpArr2([[_b(eng.equals(x, c)) for x in r] for r, c in zip(self.rows, other.items)])
+        raise Unsupported('2-D comparison')
+
+
+class NpCol:
+    """column vector (n, 1)"""
+
+    def __init__(self, items):
+        self.items = list(items)
+
+
+def pytype_is_bool(x):
+    return isinstance(x, bool) or (is_sym(x) and x.t == BOOL)
+
+
+def _b(v):
+    return v if isinstance(v, bool) else Sym(v, BOOL)
+
+
+def eng_int(i):
+    i = concretize(i)
+    if is_sym(i):
+        raise Unsupported('symbolic row index')
+    return int(i)
+
+
+def _arr_getitem(self, eng, idx, node=None):
+    if isinstance(idx, tuple) and len(idx) == 2 and isinstance(idx[0], slice) and idx[1] is None:
+        return NpCol(self.items)
+    if isinstance(idx, NpArr) and idx.items and all(pytype_is_bool(x) for x in idx.items):
+        # boolean mask: decide every mask element on this path
+        out = []
+        for x, m in zip(self.items, idx.items):
+            if eng.test(m):
+                out.append(x)
+        return NpArr(out)
+    if isinstance(idx, NpArr):
+        return NpArr([eng.getitem(self.items, i, node) for i in idx.items])
+    return eng.getitem(self.items, idx, node)
+
+
+NpArr.vc_getitem = _arr_getitem
+
+
+def _arr_setslice(self, eng, lo, hi, value, node=None):
+    vals = _items(eng, value)
+    if lo is None and hi is None:
+        if len(vals) != len(self.items):
+            raise PyRaise('ValueError', 'could not broadcast')
+        self.items[:] = vals
+        return
+    raise Unsupported('partial slice assignment')
+
+
+NpArr.vc_setslice = _arr_setslice
+
+
+def _arr_eq(self, eng, other):
+    if isinstance(other, NpArr):
+        return NpArr([_b(eng.equals(a, b)) for a, b in zip(self.items, other.items)])
+    return NpArr([_b(eng.equals(a, other)) for a in self.items])
+
+
+NpArr.vc_eq = _arr_eq
+
+
+def np_zeros(eng, args, kwargs, node):
+    return NpArr([0] * eng_int(args[0]))
+
+
+def np_empty(eng, args, kwargs, node):
+    return NpArr([None] * eng_int(args[0]))
+
+
+def np_vstack(eng, args, kwargs, node):
+    return NpArr2([_items(eng, r) for r in _items(eng, args[0])])
+
+
+def np_arange(eng, args, kwargs, node):
+    return NpArr(list(range(*[eng_int(a) for a in args])))
+
+
+def np_argmax(eng, args, kwargs, node):
+    v = args[0]
+    axis = kwargs.get('axis', args[1] if len(args) > 1 else None)
+    rows = v.rows if isinstance(v, NpArr2) and axis == 1 else [_items(eng, v)]
+    out = []
+    for r in rows:
+        best, bi = r[0], 0
+        for j in range(1, len(r)):
+            c = eng.order(ast.Gt(), r[j], best, node)     # first index of the maximum: strict improvement only
+            bi = eng.ite(c, j, bi) if not isinstance(c, bool) else (j if c else bi)
+            best = eng.ite(c, r[j], best) if not isinstance(c, bool) else (r[j] if c else best)
+        out.append(bi)
+    return NpArr(out) if isinstance(v, NpArr2) and axis == 1 else out[0]
+
+
+TABLE.update({'numpy.zeros': np_zeros, 'numpy.empty': np_empty, 'numpy.vstack': np_vstack, 'numpy.arange': np_arange,
+              'numpy.argmax': np_argmax})
+CONST.update({'numpy.newaxis': None})
+
+
+def _arr_setitem(self, eng, idx, v, node=None):
+    return eng.setitem(self.items, idx, v, node)
+
+
+NpArr.vc_setitem = _arr_setitem
